@@ -253,8 +253,8 @@ func V3Temporal10(ver int, b [8]int, t [3]int) int {
 // EffIdx holds *effective* (already resolved) environmental inputs: requirement
 // indices into CR/IR/AR codes (X,H,M,L) and effective base-metric indices.
 type EffIdx struct {
-	Ver        int
-	CR, IR, AR int
+	Ver                        int
+	CR, IR, AR                 int
 	AV, AC, PR, UI, S, C, I, A int
 }
 
@@ -267,7 +267,7 @@ var (
 )
 
 func buildEnv() {
-	var expl [2][4][2][3][2]*big.Rat // [s][av][ac][pr][ui]
+	var expl [2][4][2][3][2]*big.Rat    // [s][av][ac][pr][ui]
 	var explInt [2][4][2][3][2]*big.Int // expl * explDen
 	explDen := new(big.Int).Exp(big.NewInt(10), big.NewInt(12), nil)
 	for s := 0; s < 2; s++ {
